@@ -95,6 +95,7 @@ func (c20) Run(ts *tape.Set, tier Tier) *Result {
 	var op func(w *world.World) error
 	fragMode := shape.Pick(2, 1, 1, 1)
 	fragSeed := shape.Raw()
+	nodeReifier := shape.Intn(3) == 2
 	switch kind {
 	case 0:
 		maxSize := 8 << 10
@@ -318,7 +319,7 @@ func (c20) Run(ts *tape.Set, tier Tier) *Result {
 		st.TrackGIDs = true
 		st.ReadPolicy = nil
 		st.Frag = fragFn(fragSeed+uint64(rep), fragMode)
-		w := world.New(st, false)
+		w := newWorld(st, false, nodeReifier)
 		var opErr error
 		panicked, site, pmsg := guard(func() { opErr = op(w) })
 		res.Execs++
